@@ -44,7 +44,7 @@ PROPS = {
     ),
     "C03": dict(
         modules=['Gopki.Props.C03'],
-        theorems=['Rdn.parse_render', 'C03.C03_body_fields', 'C03.C03_sign_keeps_fields', 'C03.C03_validate_is_pure', 'C01.C01_signs_with_issuer'],
+        theorems=['Rdn.parse_render', 'C03.C03_fields_reach_the_der', 'C03.C03_body_fields', 'C03.C03_sign_keeps_fields', 'C03.C03_validate_is_pure', 'C01.C01_signs_with_issuer'],
         ops=["rdn", "validate", "pki"],
         rule="rdn: all 1-2-attribute subjects over a 12-key alphabet x 6 value shapes with 4 separator variants, random subjects up to 8 attributes, "
              "a hand-written list of inputs outside the documented grammar (escapes, #hex, malformed), random strings over a 12-symbol alphabet; "
@@ -54,7 +54,7 @@ PROPS = {
     ),
     "C04": dict(
         modules=['Gopki.Props.C04', 'Gopki.Props.C05', 'Gopki.Props.C02'],
-        theorems=['C02.C02_time_roundtrip', 'C04.C04_instant_roundtrip', 'C04.C04_calendar_bijection', 'Calendar.civilFromDays_daysFromCivil', 'Calendar.wallOf_goDate_midnight', 'C04.C04_date_is_local_midnight', 'C04.C04_invalid_rejected', 'C04.C04_duration_grammar', 'C04.C04_duration_months_digits', 'C04.C04_utc_tag', 'C04.C04_inherit', 'Calendar.era_split', 'Calendar.yoe_table', 'Cal.mp_inv', 'Cal.doy_bounds', 'C05.model_defaults_eq_facts'],
+        theorems=['C02.C02_time_roundtrip', 'C04.C04_validity_reaches_the_der', 'C04.C04_instant_roundtrip', 'C04.C04_calendar_bijection', 'Calendar.civilFromDays_daysFromCivil', 'Calendar.wallOf_goDate_midnight', 'C04.C04_date_is_local_midnight', 'C04.C04_invalid_rejected', 'C04.C04_duration_grammar', 'C04.C04_duration_months_digits', 'C04.C04_utc_tag', 'C04.C04_inherit', 'Calendar.era_split', 'Calendar.yoe_table', 'Cal.mp_inv', 'Cal.doy_bounds', 'C05.model_defaults_eq_facts'],
         ops=["validity", "pki"],
         rule="validity: every calendar day of two years (thorough: 1950-2200) x rotating zone offsets x {from, until, from+duration, from+until}, boundary dates x 9 offsets x 15 durations, "
              "impossible dates, malformed durations, random combinations; non-trivial = well-formed input with at least one of from/until/duration",
@@ -63,7 +63,7 @@ PROPS = {
     ),
     "C06": dict(
         modules=["Gopki.Props.C06"],
-        theorems=['C06.C06_b64_any_length', 'C06.C06_go_decoder_any_length', 'C06.C06_go_decoder_wrapped', 'C06.C06_constant_compiles_to_itself', 'C06.mapM_constant', 'C06.C06_extensions_in_order', 'C06.C06_raw_handler', 'C06.C06_null_empty', 'B64.dec_enc'],
+        theorems=['C06.C06_extensions_reach_the_der', 'C06.C06_b64_any_length', 'C06.C06_go_decoder_any_length', 'C06.C06_go_decoder_wrapped', 'C06.C06_constant_compiles_to_itself', 'C06.mapM_constant', 'C06.C06_extensions_in_order', 'C06.C06_raw_handler', 'C06.C06_null_empty', 'B64.dec_enc'],
         ops=["raw", "ext", "pki"],
         rule="raw: !null, !empty, every payload length 0..1100 (thorough 0..8200) plus 1535, 1536, 4096, 65536 with random bytes, hand-written malformed encodings, single-character mutations; non-trivial = accepted non-empty payload",
         modelled=["modelled, not verified: encoding/base64 StdEncoding.DecodeString (CR/LF skipping, lenient trailing bits)"],
@@ -79,7 +79,7 @@ PROPS = {
         assumptions=["Crypto laws: a signature made with a private key verifies under its public key; ECDSA/RSA key type is what the key's Go type says"],
     ),
     "C02": dict(
-        modules=['Gopki.Props.C02', 'Gopki.Props.Tags'], theorems=['C02.C02_reencode_identity', 'C02.C02_model_cert_decodable', 'C02.C02_algid_params', 'C02.C02_inner_eq_outer', 'C02.C02_version_v3', 'C02.C02_serial_source', 'C02.C02_serial_len', 'C02.C02_time_form', 'C02.C02_time_roundtrip', 'Der.dec_sound', 'Der.dec_enc', 'Tags.tags_certificate'], ops=['pki', 'hist'],
+        modules=['Gopki.Props.C02', 'Gopki.Props.Tags'], theorems=['C02.C02_reencode_identity', 'C02.C02_model_cert_decodable', 'C02.C02_model_tbs_canonical', 'C02.C02_model_cert_canonical', 'C02.C02_model_cert_roundtrip', 'CertRound.decTbs_tbsTlv', 'CertWf.tbsOk_of_tbsOkB', 'C02.C02_sigAlg_ok', 'CertWf.good_tbs', 'CertWf.oidContent_canonical', 'CertWf.intBytes_canonical', 'Der.wf_of_tagsOk', 'C02.C02_algid_params', 'C02.C02_inner_eq_outer', 'C02.C02_version_v3', 'C02.C02_serial_source', 'C02.C02_serial_len', 'C02.C02_time_form', 'C02.C02_time_roundtrip', 'Der.dec_sound', 'Der.dec_enc', 'Tags.tags_certificate'], ops=['pki', 'hist'],
         rule="pki: forests of 1-5 entities (random parent vector, nested directories, yaml/yml/json), every key algorithm except RSA>=2048 in quick, configured/omitted signature algorithms, "
              "subjects from the documented grammar incl. UTF-8 and custom OIDs, 0-6 extensions of all 11 kinds, serials, unique ids, validity forms, manipulations in 1 of 5 forests, 6 zone offsets, 5 flag sets; "
              "every generated certificate is compared byte for byte with the model and read by the strict decoder; non-trivial = at least one certificate generated",
